@@ -181,13 +181,13 @@ ADDENDA = {
     "C08": "five scenarios whose versions are symbolic links (every kill point, judged against the uninterrupted run); a stale, longer file at the archive's staging name; the recorded state after the completed re-run is judged too; all 810 (A, B, archive) instances over two paths x two contents in thorough (a seeded 60 in quick), every kill point each",
     "C09": "two multi-chunk files whose names differ in one non-UTF-8 byte, two jobs; a file in flight that replaces one of the same size; a source that shrinks between the killed run and the re-run; a 200 000-byte file (between one pipe write and one transfer chunk) in every direction; conformance tolerant of one unlogged call per thread with several jobs",
     "C11": "names that a cleaning step would turn into '..' or an absolute path (NUL, blanks, line ends, per-cent escapes, full-width dots); very long refused paths (plain, control characters, backslashes, 2/3/4-byte characters at every alignment), names that contain backslashes and dots; 'refused' is recognised by effect, not by the reply's wording; the hub's stderr is a read pipe / a full device / a pipe without reader",
-    "C12": "frames longer than their CBOR item (zero filler, a complete request as filler), such frames closed inside the filler, a Put under a path that is a file (request fails, session goes on), a Hello naming another version, an empty Put with a wrong hash, refused paths of multi-byte characters, staging files of dead servers in the served tree, a Put longer than its input; time-outs are re-checked with a longer limit before they count",
+    "C12": "a Get whose request frame is exactly the 1 MiB bound or up to 40 bytes less (the reply must still fit); frames longer than their CBOR item (zero filler, a complete request as filler), such frames closed inside the filler, a Put under a path that is a file (request fails, session goes on), a Hello naming another version, an empty Put with a wrong hash, refused paths of multi-byte characters, staging files of dead servers in the served tree, a Put longer than its input; time-outs are re-checked with a longer limit before they count",
     "C13": "stale-listing windows in which the listed version is replaced by one of the same length within the same second; a name that sorts before a directory's entries as a string and after them as a path, names with a backslash, a non-UTF-8 name (unsendable trees), a file named like another name's directory (blocked runs), a hub root containing colons, scripted clash histories and scripted stale-listing windows with a file/directory clash or an empty losing file, a scripted history with a client-owned file named like a conflict-copy (known finding H26 for the clashing file only); run-failed labels are reports, not alarms; the check refuses to pass when no race could be produced",
-    "C16": "a zero block and a block tuned to byte sum m*65521, each reached by sliding; multi-MiB sources whose matches all sit off the block grid; first matches just before and just after a normalisation point; a 24 MiB run of new data before a known tail (thorough); engine / signature block-size mismatch at the library level",
+    "C16": "deltas against signatures built from short reads held to the greedy bound too; a zero block and a block tuned to byte sum m*65521, each reached by sliding; multi-MiB sources whose matches all sit off the block grid; first matches just before and just after a normalisation point; a 24 MiB run of new data before a known tail (thorough); engine / signature block-size mismatch at the library level",
     "C17": "marathons over data swinging between long runs of low and high bytes; 5003 consecutive slides at windows 65536 / 65535 / 56000 / 32768; marathon runs of 26-70 million consecutive slides judged at checkpoints by RollingTrace!New",
     "C18": "name sets whose byte order differs from their path order, and one of names that look like staging files, conflict-copies and dot-files, one where each path is an ancestor of the next; tree results compared as sets",
     "C19": "as C18 for the planner; listing timestamps at .999999999 and before 1970 (negative whole seconds with a fraction)",
-    "C20": "every case also decoded through short reads; hostile copy offsets, block sizes valid in their low half only; 'malformed beyond argument => exit 1' is a Monitor clause",
+    "C20": "a declared payload length of exactly 16 MiB (class max0, payload materialised); every case also decoded through short reads; hostile copy offsets, block sizes valid in their low half only; 'malformed beyond argument => exit 1' is a Monitor clause",
 }
 
 NOT_BUILT = "check not built yet in this round (planned in DESIGN.md section 5)"
